@@ -338,6 +338,34 @@ def check(run):
     run.case(key="cyclic", kind="custom-forms-cyclic")
     if v != 6.0:
         run.fail("custom-form-cyclic-call-graph", "f(r,a) = g(r,a) + a ; g(r,b) = if(b > 0, f(r,b-1), 0) ; 'A-B : f 3' evaluates to %r, the formulas give 3+2+1+0 = 6" % (v,), dict(potable_file=cyc, value=v))
+    # ---- signatures the formula language cannot bind as written (it is case-insensitive and keeps variables and functions in one name space): whatever the
+    #      library does with them, it must not tabulate a DIFFERENT function than the one the entry denotes under positional binding - either the positional
+    #      value, or a refusal (a configuration error; which of the two is C16's business)
+    from atsim.potentials.config._common import ConfigurationException
+    H = "[Tabulation]\ntarget : LAMMPS\ncutoff : 4.0\nnr : 9\n"
+    probes = [
+        ("parameters differing by case only", H + "[Potential-Form]\nf(r, A, a) = A + 10*a\n[Pair]\nX-Y : f 1.0 2.0\n", {"X": lambda r: 21.0}),
+        ("parameters differing by case only (used with r)", H + "[Potential-Form]\nf(r, A, a) = A*r + a\n[Pair]\nX-Y : f 1.0 2.0\n", {"X": lambda r: r + 2.0}),
+        ("a parameter that is the separation variable in another case", H + "[Potential-Form]\nf(r, R) = R*r\n[Pair]\nX-Y : f 3.0\n", {"X": lambda r: 3.0 * r}),
+        ("the same parameter name twice", H + "[Potential-Form]\nf(r, a, a) = a*r\n[Pair]\nX-Y : f 1.0 2.0\n", None),
+        ("forms whose labels differ by case only, both called from a third", H + "[Potential-Form]\nf(r, a) = a\nF(r, a) = 10*a\ng(r, a) = f(r, a) + F(r, a)\n[Pair]\nX-Y : g 1.0\n", {"X": lambda r: 11.0}),
+        ("forms whose labels differ by case only, used by two interactions", H + "[Potential-Form]\nf(r, a) = a\nF(r, a) = 10*a\n[Pair]\nX-Y : f 1.0\nZ-Y : F 1.0\n", {"X": lambda r: 1.0, "Z": lambda r: 10.0}),
+    ]
+    for what, cfg, want in probes:
+        run.case(key=("binding-probe", what), kind="custom-form-binding-probes")
+        try:
+            tab = Configuration().read(io.StringIO(cfg))
+            got = dict((p.speciesA, [p.energy(r) for r in (0.5, 1.0, 2.0)]) for p in tab.potentials)
+        except ConfigurationException:
+            continue                      # refused: nothing wrong is tabulated
+        except Exception:
+            continue                      # (an internal exception is C16's finding, not a wrong table)
+        if want is None:
+            run.fail("custom-form-meaning", "%s: the entry is accepted and tabulates %s although its signature does not say which argument the repeated name stands for" % (what, got), dict(potable_file=cfg))
+            continue
+        exp = dict((k, [f(r) for r in (0.5, 1.0, 2.0)]) for k, f in want.items())
+        if got != exp:
+            run.fail("custom-form-meaning", "%s: the potentials evaluate to %s at r = 0.5, 1, 2; binding the parameters positionally gives %s" % (what, got, exp), dict(potable_file=cfg))
     # ---- (D) pymath --------------------------------------------------------------------------------------------------------------
     table = [("acos(0.25)", math.acos(0.25)), ("ceil(4.2)", 5.0), ("cosh(1.5)", math.cosh(1.5)), ("exp(2.5)", math.exp(2.5)),
              ("ldexp(3.5, 4)", 56.0), ("log(10)", math.log(10)), ("log(8, 2)", math.log(8, 2)),
